@@ -67,6 +67,10 @@ Edits(S, doc, roots) ==
   \* 1. a field the parent type does not have
   {SetNode("unknownField", i, "name", "nope") : i \in FieldNodes(doc)}
   \cup
+  \* 1b. ... also when the response key says `__typename` (an alias does not make a field a meta field)
+  {AppendEd("unknownFieldAliasedTypename", sc[2], <<FieldNode(sc[1], sc[2], "nope", "__typename")>>) :
+      sc \in {y \in Scopes(S, doc, roots) : KindOf(S, y[3]) \in {"OBJECT", "INTERFACE"}}}
+  \cup
   \* 2. a sub-selection on a scalar / enum field
   {AppendEd("subselectionOnLeaf", i, <<FieldNode(doc.nodes[i].d, i, "x", "")>>) :
       i \in {x \in FieldNodes(doc) : IsLeaf(S, TargetType(S, doc, roots, x))}}
